@@ -909,6 +909,23 @@ class BasisManaged(Managed):
     def unprotect_basis(self):
         self.is_basis_protected = False
         
+    def __copy__(self):
+        """Shallow copy which stays under basis management
+        
+        A copy made inside a basis context (e.g. the result of applying 
+        a tensor to an operator) is represented in the basis of that context. 
+        It has to be registered with the context, so that it is transformed
+        back together with the original when the context is left.
+        
+        """
+        cls = self.__class__
+        new = cls.__new__(cls)
+        new.__dict__.update(self.__dict__)
+        bb = self.get_current_basis()
+        if (bb != 0) and (bb in self.manager.basis_registered):
+            self.manager.register_with_basis(bb, new)
+        return new
+        
         
 
 
